@@ -2,7 +2,7 @@
 from checks import pfcp_common as pc
 
 MANIFEST = dict(
-    text="Kernel-checked frame theorems: a Modification / Deletion changes only the addressed session - every other session value (rule ids, URR counters, packet queues) is identical, rules of other SEIDs in the data plane are untouched, every driver call carries the addressed SEID; re-association removes exactly the sessions of the node object registered under the id (for every Reset order) and withdraws their rules; a SEID-0 report response removes at most the one session matching CP SEID and peer address; node session sets are disjoint. PARTIAL: 'established under that node id' differs from 'node object registered under the id' after a takeover onto an already associated node id - refuted in Coq (C05_takeover_collision_refuted) and confirmed on the real server: recorded finding sig=takeover-collision. Tie: differential run + per-event diff of all sessions not addressed.",
+    text="Kernel-checked frame theorems: a Modification / Deletion changes only the addressed session - every other session value (rule ids, URR counters, packet queues) is identical, rules of other SEIDs in the data plane are untouched, every driver call carries the addressed SEID; re-association removes exactly the sessions of the node object registered under the id (for every Reset order) and withdraws their rules; a SEID-0 report response removes at most the one session matching CP SEID and peer address; node session sets are disjoint. A takeover (Modification with a new Node ID) onto an id that has its own association moves exactly that session to the owning node and displaces nothing (C05_takeover_does_not_displace; the former finding takeover-collision, fixed in 8b22329, is a regression history run first); onto an unused id it re-keys the session's node as before. Tie: differential run + per-event diff of all sessions not addressed.",
     note="Partial: takeover collision is a known finding (design-level repair). Establishment frame is part of C08's theorem. ",
     technique='Coq frame lemmas (per handler) + refutation witness for the finding + differential run + trace monitor',
     design='4/C05')
